@@ -238,6 +238,7 @@ type pair struct {
 
 	ctx    context.Context
 	cancel context.CancelFunc
+	opened bool // Open was called on the client: its dispatcher goroutine exists
 }
 
 const (
@@ -348,6 +349,7 @@ func (p *pair) receiveOnce() (ev srvEvent, stop bool) {
 
 // open runs the real client handshake.
 func (p *pair) open() error {
+	p.opened = true
 	ctx, cancel := context.WithTimeout(p.ctx, watchdog)
 	defer cancel()
 	return p.cli.Open(ctx)
@@ -401,7 +403,6 @@ func (p *pair) close() {
 		case <-time.After(5 * time.Second):
 		}
 	}
-	p.cancel()
 	if p.cliConn != nil {
 		p.cliConn.Close()
 	}
@@ -414,6 +415,18 @@ func (p *pair) close() {
 	if p.px != nil {
 		p.px.close()
 	}
+	// Quiesce before any context is cancelled: gopcua's dispatcher must have
+	// stopped, otherwise a cancelled Open can clear openingInstance under the
+	// feet of a dispatcher that is still working on an OpenSecureChannel
+	// response (nil dereference in readChunk; seen once in 9*10^5 cases) and
+	// the crash would be blamed on whatever case runs next.
+	if p.cli != nil && p.opened {
+		select {
+		case <-p.cli.VerifDisconnected():
+		case <-time.After(5 * time.Second):
+		}
+	}
+	p.cancel()
 	if p.ln != nil {
 		select {
 		case <-p.srvDone:
